@@ -156,6 +156,20 @@ def run(ctx, facts):
     readers = [x for x in user_nodes(rfn) if x["k"] == "Call" and x.get("callee", "") in ("serde_json::from_reader", "serde_json::from_str", "serde_json::from_slice")]
     if len(writers) == 1 and nf.nf(writers[0]["args"][1]) == "self":
         ctx.ok("JSON", DUMP, "written by %s(writer, self)" % writers[0]["callee"], hirq.loc(writers[0]))
+        # the write happens on every call that does not fail: nothing but an error return may leave dump_json before it, and it
+        # is under no condition (a "file unchanged, skip the write" shortcut keeps whatever the old file held)
+        from ..rulelib import before as _before
+        td = tree_of(dfn)
+        w_ = writers[0]
+        early = [x for x in user_nodes(dfn) if x["k"] == "Ret" and _before(dfn, x, w_) and "Err" not in (hirq.show(x["e"])[:40] if "e" in x else "")]
+        wconds = nf.all_conditions(td, w_)
+        if early or wconds:
+            x_ = early[0] if early else w_
+            ctx.violation("JSON", DUMP, "write skipped on some path", hirq.loc(x_),
+                          "dump_json can return success without writing the parameters (%s): a later reload returns what an earlier dump left in the file"
+                          % ("`return %s` when %s" % (hirq.show(early[0]["e"])[:30] if "e" in early[0] else "", nf.control_facts(td, early[0])[:1]) if early else "the write is conditional on %s" % wconds[:1]))
+        else:
+            ctx.ok("JSON", DUMP, "the write is unconditional: only error returns precede it", hirq.loc(w_))
     else:
         ctx.violation("JSON", DUMP, "writer", hirq.loc(dfn), "expected exactly one serde_json::to_writer(.., self); found %d" % len(writers))
     if len(readers) == 1 and any(P in sub for sub in readers[0].get("substs", [])):
